@@ -93,6 +93,8 @@ pub fn lists() -> Vec<RV> {
     vec![
         RV::List(vec![]), RV::List(vec![RV::Int(1)]), RV::List(vec![RV::Int(1), RV::Int(2)]), RV::List(vec![RV::None]),
         RV::List(vec![f(f64::NAN)]), RV::List(vec![RV::List(vec![RV::Int(1)])]), RV::List(vec![s("a")]), RV::List(vec![f(1.0), d(10, 1)]),
+        // the same number in another type, inside a container (cross-type equality is false there too)
+        RV::List(vec![d(1, 0)]), RV::List(vec![f(1.0)]), RV::List(vec![s("1")]), RV::List(vec![RV::Bool(true)]), RV::List(vec![d(10, 1)]), RV::List(vec![f(-0.0)]), RV::List(vec![f(0.0)]),
     ]
 }
 
@@ -100,6 +102,7 @@ pub fn maps() -> Vec<RV> {
     vec![
         RV::map(&[]), RV::map(&[("a", RV::Int(1))]), RV::map(&[("a", RV::None)]),
         RV::map(&[("a", RV::Int(1)), ("b", RV::map(&[("c", RV::Int(2))]))]), RV::map(&[("A", RV::Int(1))]), RV::map(&[("1", s("x"))]),
+        RV::map(&[("a", d(1, 0))]), RV::map(&[("a", f(1.0))]), RV::map(&[("a", d(10, 1))]),
     ]
 }
 
